@@ -186,12 +186,43 @@ def model_stamp():
     return h.hexdigest()
 
 
+_HELD = []      # the build lock, kept (shared) until this process exits: see ensure_build
+
+
+def _consts_digest():
+    try:
+        with open(os.path.join(COQ, 'Gen', 'Consts.v'), 'rb') as f:
+            return hashlib.sha256(f.read()).hexdigest()
+    except OSError:
+        return None
+
+
 def ensure_build(verbose=False, jobs=16):
-    """Regenerate constants, run make, rebuild the driver.  Returns BuildStatus."""
+    """Regenerate constants, run make, rebuild the driver.  Returns BuildStatus.
+    The build is made under an exclusive lock, which is then turned into a shared one held for the rest of the process:
+    a concurrent check of ANOTHER tree (VERIF_REPO, seeded-change trials) whose constants differ cannot replace Consts.v and
+    the driver under a check that is still using them."""
+    for attempt in range(6):
+        st = _ensure_build(verbose, jobs)
+        mine = _consts_digest()
+        lock = _HELD[-1]
+        fcntl.flock(lock, fcntl.LOCK_SH)          # (not atomic: somebody may have rebuilt in between — verify)
+        if _consts_digest() == mine and st.consts_ok:
+            return st
+        if not st.consts_ok:
+            return st
+    return st
+
+
+def _ensure_build(verbose=False, jobs=16):
     st = BuildStatus()
     t0 = time.time()
     os.makedirs(os.path.join(VERIF, '.scratch'), exist_ok=True)
-    lock = open(os.path.join(VERIF, '.scratch', 'build.lock'), 'w')
+    if _HELD:
+        lock = _HELD[-1]
+    else:
+        lock = open(os.path.join(VERIF, '.scratch', 'build.lock'), 'w')
+        _HELD.append(lock)
     fcntl.flock(lock, fcntl.LOCK_EX)
     try:
         env = dict(os.environ)
@@ -248,8 +279,7 @@ def ensure_build(verbose=False, jobs=16):
         else:
             st.driver_ok = True
     finally:
-        fcntl.flock(lock, fcntl.LOCK_UN)
-        lock.close()
+        pass                                     # the lock is kept: ensure_build turns it into a shared one
     st.wall_s = time.time() - t0
     return st
 
